@@ -613,7 +613,7 @@ class AlterRecordDispatch:
     """an ALTER record is handled by the handler(s) of its own kind, once, and by nothing else; a record of no known kind
     changes nothing.  The handlers are abstract here (ghost events); each has its own contract above."""
     fn = "output.base_data.BaseData.append_statement_information_to_table"
-    props = ["C04"]
+    props = ["C04", "C03", "C13"]
     abstract_callees = True
     stub_calls = {
         "output.base_data.BaseData.prepare_alter_columns": "add-columns",
